@@ -13,7 +13,7 @@ def sweep(ctx, n):
 
     rng, fails, done, kinds = ctx.rng, [], 0, {}
     KINDS = ["cuboid-split", "cuboid-mesh-tetra-triangles", "cylinder-segments", "sphere-dipole", "mesh-converters", "polyline-circle",
-             "polyline-split", "segment-angle-turns", "cuboid-mesh-lattice", "mesh-row"]
+             "polyline-split", "segment-angle-turns", "cuboid-mesh-lattice", "mesh-row", "vertex-touching"]
 
     def rel(a, b):
         return float(np.max(np.abs(a - b)) / (np.max(np.abs(b)) + 1e-300))
@@ -163,6 +163,44 @@ def sweep(ctx, n):
                 _ = m3.mesh
                 m3.reorient_faces()
                 err = max(err, rel(get(m3, obs), ref), rel(magpy.getH(m3.to_TriangleCollection(), obs), magpy.getH(m0, obs)))
+            elif kind == "vertex-touching":
+                # one mesh made of two closed pieces that meet in a single vertex only (an hourglass of two tetrahedra sharing the
+                # apex; two boxes corner to corner), one piece given inside-out: after the default reorientation the mesh is the
+                # sum of the two bodies
+                if rng.random() < 0.5:
+                    a = nps.uniform(0.5, 1.5, 3)
+                    t1 = np.array([[0, 0, 0], [a[0], 0, a[2]], [0, a[1], a[2]], [-a[0], -a[1], a[2]]], float)
+                    t2 = -t1 * nps.uniform(0.6, 1.4)
+                    verts = np.concatenate([t1, t2[1:]])
+                    f1 = [[0, 1, 2], [0, 2, 3], [0, 3, 1], [1, 3, 2]]
+                    f2 = [[0, 4, 5], [0, 5, 6], [0, 6, 4], [4, 6, 5]]
+                    bodies = [magpy.magnet.Tetrahedron(vertices=t1, polarization=pol), magpy.magnet.Tetrahedron(vertices=t2, polarization=pol)]
+                    inner = [t1.mean(axis=0), t2.mean(axis=0)]
+                else:
+                    d1, d2 = nps.uniform(0.5, 1.5, 3), nps.uniform(0.5, 1.5, 3)
+                    box = np.array([[x, y, z] for x in (0, 1) for y in (0, 1) for z in (0, 1)], float)
+                    quad = [[0, 1, 3], [0, 3, 2], [4, 6, 7], [4, 7, 5], [0, 4, 5], [0, 5, 1], [2, 3, 7], [2, 7, 6], [0, 2, 6], [0, 6, 4], [1, 5, 7], [1, 7, 3]]
+                    v1, v2 = box * d1, -box * d2  # both have the corner (0,0,0)
+                    verts = np.concatenate([v1, v2[1:]])
+                    f1 = quad
+                    f2 = [[(0 if k == 0 else k + 7) for k in f] for f in quad]
+                    bodies = [magpy.magnet.Cuboid(dimension=d1, polarization=pol, position=d1 / 2), magpy.magnet.Cuboid(dimension=d2, polarization=pol, position=-d2 / 2)]
+                    inner = [d1 / 2, -d2 / 2]
+                faces = np.array(f1 + f2)
+                flipped = faces.copy()
+                which = rng.choice(["second", "first", "mixed"])
+                sel = np.zeros(len(faces), bool)
+                if which == "second":
+                    sel[len(f1):] = True
+                elif which == "first":
+                    sel[:len(f1)] = True
+                else:
+                    sel = nps.random(len(faces)) < 0.5
+                flipped[sel] = flipped[sel][:, [0, 2, 1]]
+                order = nps.permutation(len(faces))
+                mesh = magpy.magnet.TriangularMesh(vertices=verts, faces=flipped[order], polarization=pol, check_selfintersecting="skip")
+                obs = np.concatenate([far_points(nps, 3, lo=2.5, hi=6), np.array(inner)])
+                err = rel(get(mesh, obs), get(bodies, obs, sumup=True))
             elif kind == "polyline-circle":
                 nseg = 4000
                 ph = np.linspace(0, 2 * np.pi, nseg + 1)
